@@ -252,21 +252,29 @@ def main():
 
     # ---- (1) Lean: driver, theorems, audit ---------------------------------------------------
     drv_ok, drv_log = vlib.lean_build([])
-    thm_ok, thm_log = vlib.lean_build([mod.PROPS_MODULE]) if drv_ok else (False, drv_log)
+    modules = [mod.PROPS_MODULE] + list(getattr(mod, "EXTRA_PROPS_MODULES", []))
+    thm_ok, thm_log = vlib.lean_build(modules) if drv_ok else (False, drv_log)
     thms, bad, alog = ([], ["theorem module does not build"], "")
     if thm_ok:
-        thms, bad, alog = vlib.lean_audit(mod.PROPS_MODULE, prop)
+        thms, bad, alog = [], [], ""
+        for m in modules:
+            t1, b1, a1 = vlib.lean_audit(m, prop)
+            thms += t1; bad += b1; alog += a1
     else:
-        try:
-            thms = vlib.theorems_of(mod.PROPS_MODULE)
-        except OSError:
-            thms = []
-    hits = vlib.forbidden_scan(mod.PROPS_MODULE)
+        thms = []
+        for m in modules:
+            try:
+                thms += vlib.theorems_of(m)
+            except OSError:
+                pass
+    hits = []
+    for m in modules:
+        hits += vlib.forbidden_scan(m)
     proof_problems = []
     if not drv_ok:
         proof_problems.append("lake build amqdrv failed")
     if not thm_ok:
-        proof_problems.append("lake build %s failed" % mod.PROPS_MODULE)
+        proof_problems.append("lake build %s failed" % " ".join(modules))
     proof_problems += bad if thm_ok else []
     proof_problems += ["forbidden token: " + h for h in hits]
     with open(os.path.join(rep.workdir, "lean.log"), "w") as f:
@@ -314,7 +322,7 @@ def main():
         "obligations": len(thms),
         "discharged": max(discharged, 0),
         "theorems": thms,
-        "checker_cmd": "cd /verif/lean && lake build amqdrv %s && lake env lean <generated #print axioms file> (allowed: propext, Classical.choice, Quot.sound) && forbidden-token scan" % mod.PROPS_MODULE,
+        "checker_cmd": "cd /verif/lean && lake build amqdrv %s && lake env lean <generated #print axioms file> (allowed: propext, Classical.choice, Quot.sound) && forbidden-token scan" % " ".join(modules),
         "trusted_base": vlib.TRUSTED_BASE + getattr(mod, "TRUSTED_EXTRA", []),
         "evaluations": rep.evals,
         "distinct_nontrivial": len(rep.nontrivial_keys),
